@@ -42,7 +42,7 @@ func runC12(c core.Case) core.Result {
 func genC12(tier string, seed int64) []core.Case {
 	nrace, nplain := 16, 24
 	if tier == "thorough" {
-		nrace, nplain = 300, 600
+		nrace, nplain = 100, 300
 	}
 	r := rand.New(rand.NewSource(seed*179424673 + 12))
 	var cs []core.Case
@@ -248,7 +248,7 @@ func stuckToViolation(prop string) func(core.Case, core.StuckAnalysis, *core.Res
 func genC15(tier string, seed int64) []core.Case {
 	n := 60
 	if tier == "thorough" {
-		n = 2000
+		n = 600
 	}
 	r := rand.New(rand.NewSource(seed*373587883 + 15))
 	fams := []string{"fast-writers", "fast-writers", "begin-storm", "close-pending", "close-idle", "two-dbs"}
@@ -275,7 +275,7 @@ func init() {
 		Gen: genC12, Run: runC12, SelfTest: histSelfTest, BatchSize: 2, GoMaxProcs: 4, Parallel: 6, CaseTimeout: 400 * time.Second,
 		RaceKinds:     map[string]bool{"conc-race": true},
 		OnStuck:       stuckToViolation("C12"),
-		MinNonTrivial: map[string]int{"quick": 15, "thorough": 300},
+		MinNonTrivial: map[string]int{"quick": 15, "thorough": 150},
 		Assumptions:   []string{"the race detector reports only races on executed, instrumented accesses", "each transaction is used by one goroutine", "only interleavings the scheduler and the injected delays produced"},
 	})
 	core.Register(&core.Check{
@@ -283,7 +283,7 @@ func init() {
 		Rule: "case = one scenario, two rounds on the same directories: fast-writers (2-5 writers commit faster than a flusher slowed at its schedule points, flush queue 0-3, memtable 1-300 B), begin-storm (4-8 readers Begin while commits are slowed between timestamp and write), close-pending (Close with flushes queued), close-idle (Close right after Open), two-dbs (two databases in one process); every call must return: an in-process watchdog far above normal latency takes two goroutine dumps 3 s apart and declares a deadlock only if no hook fired in between and every goroutine inside the engine is parked in the same frame with a blocking wait reason; after Close no flush goroutine may remain and an immediate Open must read every writer's last committed value (writers own disjoint keys); non-trivial = a sender actually waited for the flush queue, or >=3 Begins arrived during a commit, or the idle-close family; distinct by case parameters",
 		Gen: genC15, Run: runC15, BatchSize: 5, GoMaxProcs: 4, Parallel: 6, CaseTimeout: 90 * time.Second,
 		OnStuck: stuckToViolation("C15"),
-		MinNonTrivial: map[string]int{"quick": 15, "thorough": 500},
+		MinNonTrivial: map[string]int{"quick": 15, "thorough": 200},
 		Assumptions: []string{"'bounded time' is decided as 'not in a stable blocked state' 90 s after the case started (normal duration < 2 s); a wedged state that still fires hooks ends inconclusive",
 			"Close is called after all client calls returned (Close concurrent with commits is outside the property)"},
 	})
